@@ -328,3 +328,51 @@ func laneCreateAgain(c *ev.Ctx, extraEnv []string) {
 		}
 	}
 }
+
+// Wrong-secret lane: an upload signed with a secret that is not the one of its access key is refused by the
+// reference gateway before anything is stored. Through the proxy the same request must be refused too and the
+// endpoint must hold nothing afterwards - whatever the size of the body and the way it is sent.
+func laneWrongSecret(c *ev.Ctx, extraEnv []string) {
+	if !c.Want("wrongsecret") {
+		return
+	}
+	p, err := newProg(c, "wrongsecret", 17, extraEnv)
+	if err != nil {
+		c.Inconclusive("gateway start (wrong-secret lane): " + firstLine(err.Error()))
+		return
+	}
+	defer p.close()
+	b := "bk-alpha"
+	p.step(&op{kind: "create-bucket", class: "new", desc: "PUT /" + b, mut: true, bucket: b, dom: "cfg", bucketEffect: true, req: bktReq("PUT", b, "", nil, nil), onAck: func() { p.m.addBucket(b) }})
+	pol := []byte(fmt.Sprintf(`{"Version":"2012-10-17","Statement":[{"Effect":"Allow","Principal":"*","Action":"s3:*","Resource":["arn:aws:s3:::%s","arn:aws:s3:::%s/*"]}]}`, b, b))
+	p.step(&op{kind: "put-bucket-policy", class: "open", desc: "PUT ?policy (open)", mut: true, bucket: b, dom: "cfg", req: bktReq("PUT", b, "policy=", nil, pol)})
+	n := 0
+	for _, size := range []int{0, 1, 3000, 1 << 20} {
+		for _, how := range []string{"signed", "unsigned", "chunked", "existing-key"} {
+			n++
+			id := fmt.Sprintf("wrongsecret/%d", n)
+			if !c.Want(id) || p.abort {
+				continue
+			}
+			body := bytes.Repeat([]byte{byte('a' + n)}, size)
+			k := fmt.Sprintf("ws-%d", n)
+			if how == "existing-key" {
+				old := []byte("what the key held before")
+				p.step(&op{kind: "put", class: "plain", desc: "PUT " + k, mut: true, bucket: b, keys: []string{b + "/" + k}, dom: "obj", req: objReq("PUT", b, k, "", nil, old),
+					onAck: func() { p.m.objs[b][k] = old }})
+			}
+			o := &op{kind: "put", class: "wrong-secret", eclass: "wrong-secret", as: "alice+wrong-secret", desc: fmt.Sprintf("PUT /%s/%s len=%d (%s) signed with a wrong secret", b, k, size, how), mut: true, bucket: b, keys: []string{b + "/" + k}, dom: "obj"}
+			o.req = func(*side) *s3c.Req {
+				r := &s3c.Req{Method: "PUT", Path: s3c.ObjPath(b, k), Body: body}
+				switch how {
+				case "unsigned":
+					r.PayloadHash = s3c.Unsigned
+				case "chunked":
+					r.Stream = &s3c.Stream{Mode: s3c.StreamSigned, ChunkSizes: []int{64 << 10}}
+				}
+				return r
+			}
+			p.step(o)
+		}
+	}
+}
